@@ -249,11 +249,22 @@ pub closed spec fn logs_in_room(e: InsertEntity, old_len: int) -> bool {
 #[verifier::external_body]
 pub fn cut_sign_updated_nodes(updated_nodes: &mut Vec<Node>, signing_key: &Ed25519SigningKey) -> (r: Result<()>) { unimplemented!() }
 
+/// "every sub-entity in `subs` went through validate_entity_mutation for caller `key` and none was refused":
+/// an uninterpreted fact that only the sub-entity validation loop establishes
+pub uninterp spec fn subs_validated(ra: RoomAuthorisations, subs: HashMap<String, Vec<InsertEntity>>, key: Vec<u8>) -> bool;
+
 impl RoomAuthorisations {
-    // E8 cut: `for entry in &mut entity_to_mutate.sub_nodes { for insert_entity in entry.1 { validate_entity_mutation(..)?; rooms.append(..) } }`
-    // (HashMap IterMut has no Verus model).  ASSUMED: it only calls validate_entity_mutation on sub-entities and propagates the first error.
+    // E8 cut (a whole helper function): validate_sub_nodes is
+    //   `for entry in &mut entity_to_mutate.sub_nodes { for insert_entity in entry.1 { validate_entity_mutation(..)?; rooms.append(..) } }`
+    // (HashMap IterMut has no Verus model).  ASSUMED: it calls validate_entity_mutation on every sub-entity, propagates the first
+    // error, and touches only `sub_nodes` of the entity and `rooms`.
     #[verifier::external_body]
-    pub fn cut_validate_sub_entities(&self, sub_nodes: &mut HashMap<String, Vec<InsertEntity>>, verifying_key: &Vec<u8>, rooms: &mut Vec<Room>) -> (r: Result<()>)
+    pub fn validate_sub_nodes(&self, entity_to_mutate: &mut InsertEntity, verifying_key: &Vec<u8>, rooms: &mut Vec<Room>) -> (r: Result<()>)
+        ensures
+            r is Ok ==> subs_validated(*self, old(entity_to_mutate).sub_nodes, *verifying_key),
+            final(entity_to_mutate).node_to_mutate == old(entity_to_mutate).node_to_mutate,
+            final(entity_to_mutate).edge_deletions == old(entity_to_mutate).edge_deletions,
+            final(entity_to_mutate).edge_deletions_log == old(entity_to_mutate).edge_deletions_log,
     { unimplemented!() }
     #[verifier::external_body]
     pub fn validate_room_mutation(&self, insert_entity: &mut InsertEntity, verifying_key: &Vec<u8>) -> (r: Result<Option<Room>>)
@@ -263,7 +274,6 @@ impl RoomAuthorisations {
 //@ extract src/database/authorisation_service.rs :: impl RoomAuthorisations / fn validate_entity_mutation
 //@ result r
 //@ attr #[verifier::loop_isolation(false)]
-//@ cut "for entry in &mut entity_to_mutate.sub_nodes" => "self.cut_validate_sub_entities(&mut entity_to_mutate.sub_nodes, verifying_key, &mut rooms)?;"
 //@ insert body-start
         proof {
             assert(<Vec<u8> as PartialEqSpec<Vec<u8>>>::obeys_eq_spec());
@@ -291,6 +301,9 @@ impl RoomAuthorisations {
             // [local_row_needs_right_in_both_rooms]{C01,C12} a data row is accepted only with the needed right at the operation's date in the room it enters and in the room it leaves
             r is Ok && old(entity_to_mutate).node_to_mutate.entity@ != system_entities::ROOM_ENT@
                 ==> spec_local_row_ok(*self, old(entity_to_mutate).node_to_mutate, *verifying_key),
+            // [sub_entities_validated]{C01} nested mutations are never skipped: on success every sub-entity went through the same validation
+            r is Ok && old(entity_to_mutate).node_to_mutate.entity@ != system_entities::ROOM_ENT@
+                ==> subs_validated(*self, old(entity_to_mutate).sub_nodes, *verifying_key),
             // [row_unchanged_by_validation] validation does not alter the row being validated
             old(entity_to_mutate).node_to_mutate.entity@ != system_entities::ROOM_ENT@ ==> final(entity_to_mutate).node_to_mutate == old(entity_to_mutate).node_to_mutate
                 && final(entity_to_mutate).edge_deletions == old(entity_to_mutate).edge_deletions,
@@ -315,7 +328,8 @@ pub closed spec fn node_delete_ok(ra: RoomAuthorisations, nd: NodeDelete, t: i64
                       own(nd.node.verifying_key, ra.signing_key.spec_vk())))
 }
 pub closed spec fn edge_delete_ok(ra: RoomAuthorisations, ed: EdgeDelete, t: i64) -> bool {
-    !is_system_entity(ed.edge.src_entity@)
+    // the entity NAME of the source row (`src_name`; `edge.src_entity` is the short storage identifier)
+    !is_system_entity(ed.src_name@)
     && (ed.room_id is Some ==> ra.rooms@.contains_key(ed.room_id->Some_0)
           && spec_can(ra.rooms@[ed.room_id->Some_0], vk_of(ra), ed.src_name@,
                       if ed.edge.verifying_key@ =~= ra.signing_key.spec_vk() { ed.date } else { t },
